@@ -168,7 +168,8 @@ def withSpec (S : Schema) (w : List String) (k : Bytes â†’ List Trait â†’ Msg â†
 def step (line : String) : String :=
   let S := utest
   match Drivers.words line with
-  | "enc" :: w => withSpec S w fun _ ts m => "wire " ++ Drivers.hex (encodeBuilt S ts m)
+  | "enc" :: w => withSpec S w fun _ ts m =>
+      if !encodeFitsBuffer S ts m then "oob" else "wire " ++ Drivers.hex (encodeBuilt S ts m)
   | "rt" :: w => withSpec S w fun _ ts m =>
       let wire := encodeBuilt S ts m
       "wire=" ++ Drivers.hex wire ++
@@ -182,6 +183,13 @@ def step (line : String) : String :=
       match factory S (mode == "p") raw with
       | .error e => decErr e
       | .ok d => "ok " ++ dumpMsg d ++ " re=" ++ reencode S d
+  | ["decn", mode, h] =>
+    match Drivers.unhex h with
+    | none => "bad-op"
+    | some raw =>
+      match factory S (mode == "p") raw with
+      | .error e => decErr e
+      | .ok d => "ok " ++ dumpMsg d
   | "clone" :: w => withSpec S w fun _ ts m =>
       let e := Drivers.hex (encodeBuilt S ts m)
       let n := 0
